@@ -1,3 +1,4 @@
+import os
 from collections.abc import Iterable, Iterator
 from itertools import chain, repeat
 from typing import TYPE_CHECKING, Any, Optional
@@ -88,7 +89,11 @@ def build_entries(
         if root == path:
             root_key: tuple[str, ...] = ()
         else:
-            root_key = fs.relparts(root, path)
+            # walk() hands back normalised roots: for a path spelled like
+            # `dir/` or `./dir` the top-level root differs from it
+            root_key = tuple(
+                part for part in fs.relparts(root, path) if part != os.curdir
+            )
 
         hashes: dict[str, tuple[Meta, HashInfo, dict]] = {}
         if compute_hash:
